@@ -1,2 +1,12 @@
-(* C11 *)
-From WaxModel Require Import Base.
+(* C11 -- Invariant text is the one and only path the pattern matches (first lemmas). *)
+From WaxModel Require Import Base Token Regex Spec.
+From WaxProofs Require Import SpecFacts.
+
+(* a case sensitive literal matches only its own text, and does match it *)
+Theorem C11_literal_unique : forall orbit s w, lit_sem orbit false s w -> w = s.
+Proof. exact lit_sem_exact. Qed.
+Print Assumptions C11_literal_unique.
+
+Theorem C11_literal_matches : forall orbit ci s, lit_sem orbit ci s s.
+Proof. exact lit_sem_refl. Qed.
+Print Assumptions C11_literal_matches.
